@@ -207,3 +207,44 @@ Proof. apply put_uvarint_length. Qed.
 
 Lemma put_varint_bytes x : in_s 64 x -> Forall is_byte (put_varint x).
 Proof. intros H. apply put_uvarint_bytes, zigzag_range, H. Qed.
+
+(* ---- whatever the bytes, the decoders return values of their type -------------------------------- *)
+Lemma lor_lt_pow2 a b n : 0 <= n -> 0 <= a < 2 ^ n -> 0 <= b < 2 ^ n -> 0 <= Z.lor a b < 2 ^ n.
+Proof.
+  intros Hn Ha Hb. split; [apply Z.lor_nonneg; lia|].
+  destruct (Z.eq_dec a 0) as [->|Ha0]; [rewrite Z.lor_0_l; lia|].
+  destruct (Z.eq_dec b 0) as [->|Hb0]; [rewrite Z.lor_0_r; lia|].
+  assert (Hl : 0 < Z.lor a b).
+  { assert (0 <= Z.lor a b) by (apply Z.lor_nonneg; lia).
+    destruct (Z.eq_dec (Z.lor a b) 0) as [E|]; [|lia]. apply Z.lor_eq_0_l in E. lia. }
+  apply Z.log2_lt_pow2; [assumption|]. rewrite Z.log2_lor by lia.
+  apply Z.max_lub_lt; apply Z.log2_lt_pow2; lia.
+Qed.
+
+Lemma uvarint_go_range buf : forall i x s, 0 <= x < 2 ^ 64 -> 0 <= fst (uvarint_go buf i x s) < 2 ^ 64.
+Proof.
+  induction buf as [|b r IH]; intros i x s Hx; cbn [uvarint_go]; [cbn; lia|].
+  destruct (i =? 10)%nat; [cbn; lia|].
+  destruct (b <? 128).
+  - destruct ((i =? 9)%nat && (1 <? b)); [cbn; lia|]. cbn [fst].
+    apply lor_lt_pow2; [lia|assumption|apply wrapu_range; lia].
+  - apply IH. apply lor_lt_pow2; [lia|assumption|apply wrapu_range; lia].
+Qed.
+
+Lemma uvarint_range buf : 0 <= fst (uvarint buf) < 2 ^ 64.
+Proof. apply uvarint_go_range. lia. Qed.
+
+Lemma unzigzag_range ux : 0 <= ux < 2 ^ 64 -> in_s 64 (unzigzag ux).
+Proof.
+  intros H. unfold unzigzag. rewrite shiftr_div by lia. change (2 ^ 1) with 2.
+  assert (Hq : 0 <= ux / 2 < 2 ^ 63).
+  { split; [apply Z.div_pos; lia|]. apply Z.div_lt_upper_bound; lia. }
+  rewrite wraps_small by (try lia; unfold in_s; change (64 - 1) with 63; lia).
+  unfold in_s. change (64 - 1) with 63. destruct (Z.land ux 1 =? 0); lia.
+Qed.
+
+Lemma varint_range buf : in_s 64 (fst (varint buf)).
+Proof.
+  unfold varint. pose proof (uvarint_range buf) as H. destruct (uvarint buf) as [ux n]. cbn [fst] in *.
+  apply unzigzag_range. assumption.
+Qed.
